@@ -1082,6 +1082,16 @@ def shallowcopy(I, v):
 
 
 def opaque_attr(I, obj, name):
+    if obj.tag == 'havoc':
+        if name in ('add', 'append', 'extend', 'update', 'remove', 'insert', 'clear', 'discard'):
+            return Builtin('havoc.' + name, lambda I_, a, k: None)
+        raise Unsupported('read of loop state that the invariant does not describe (%s.%s)' % (obj.payload, name))
+    if obj.tag == 'set':
+        if name == 'add':
+            def _add(I_, a, k):
+                if not any(I_.truth(I_.equals(a[0], y)) for y in obj.payload):
+                    obj.payload.append(a[0])
+            return Builtin('set.add', _add)
     from . import dtmodel
     r0 = dtmodel.opaque_attr(I, obj, name)
     if r0 is not NOATTR:
